@@ -64,6 +64,8 @@ pub struct Inner {
     pub handle_uses_checked: u64,
     pub pops: Vec<usize>,
     pub clone_calls: Vec<usize>,
+    /// how many option -> selectedcontent mirrorings actually copied at least one node
+    pub mirrorings_with_copies: u64,
     pub form_assoc: Vec<(usize, usize)>,
 }
 
@@ -478,6 +480,9 @@ impl MSink {
             copies.push(self.deep_copy(k));
         }
         let mut i = self.inner.borrow_mut();
+        if !copies.is_empty() {
+            i.mirrorings_with_copies += 1;
+        }
         let old: Vec<usize> = std::mem::take(&mut i.nodes[target].children);
         for o in old {
             i.nodes[o].parent = None;
